@@ -36,8 +36,10 @@ ASSUMPTIONS = [
 RULE = ("expression trees generated over the four classes (TaskExpression, SchedulerExpression, SimpleExpression, ValueExpression) "
         "with nested expression arguments, keyword arguments, option dicts, export-option sets and lengths, built as real objects; "
         "each real get_hash() pre-image (hash_struct wrapped) is compared with the model's; every expression is paired with "
-        "single-component variants (kind, name, one argument, one keyword value, options, exported options) whose real hashes must "
-        "differ; every expression goes through a real pickle round trip with bookkeeping set beforehand and the result is compared "
+        "single-component variants (kind, name, one argument changed/added/removed, two positional arguments swapped, positional "
+        "moved to keyword, keyword value/name/removal, two keyword values swapped, options, exported options) whose real hashes "
+        "must differ; both operand orders of non-commutative operators and task calls are evaluated under one parent job in a "
+        "real Scheduler and compared with plain Python evaluation; every expression goes through a real pickle round trip with bookkeeping set beforehand and the result is compared "
         "with the model's setstate(getstate) and with the statement; legacy state dicts (missing optional keys / mandatory keys) "
         "are fed to __setstate__. distinct = distinct expression trees; a bare ValueExpression is trivial")
 LEVEL_TEXT = ("Proved on the model (repaired SchedulerExpression._calc_hash) for all expressions, no size bound: equal hashes imply the "
@@ -54,7 +56,7 @@ LEVEL_NOTE = ("The model mirrors the code WITH the proposed repair(s) (harness/f
 TECHNIQUE = "Lean 4 proof on a hand-written model of the four _calc_hash and getstate/setstate + pre-image correspondence + pair oracle"
 
 NAMES = ["f", "ns.g", "redun.catch", "redun.cond", "h"]
-FUNCS = ["add", "getitem", "mul", "getattr"]
+FUNCS = ["add", "getitem", "mul", "getattr", "eq", "ne", "and", "or", "sub", "radd"]
 OPTKEYS = ["cache_scope", "memory", "executor", "prov"]
 
 
@@ -148,32 +150,60 @@ def norm(n):
     return (n[0], n[1], tuple(map(norm, n[2])), tuple((k, norm(v)) for k, v in n[3]), n[4], tuple(sorted(n[5])), n[6])
 
 
+def ident(n):
+    """what the hash may legitimately ignore removed: keyword order, export-set order, length"""
+    if n[0] in ("lit", "value"):
+        return n
+    if n[0] == "simple":
+        return ("simple", n[1], tuple(map(ident, n[2])), tuple(sorted((k, ident(v)) for k, v in n[3])))
+    return (n[0], n[1], tuple(map(ident, n[2])), tuple(sorted((k, ident(v)) for k, v in n[3])), n[4], tuple(sorted(n[5])))
+
+
+def arg_variants(rng, args, kw):
+    """changes of the argument binding only: (what, args2, kw2); each denotes a different call"""
+    pairs = [(i, j) for i in range(len(args)) for j in range(i + 1, len(args)) if ident(args[i]) != ident(args[j])]
+    if pairs:
+        i, j = rng.choice(pairs)
+        a = list(args)
+        a[i], a[j] = a[j], a[i]
+        yield "argument-order", tuple(a), kw
+    if args:
+        i = rng.randrange(len(args))
+        yield "argument", args[:i] + (("lit", 777),) + args[i + 1:], kw
+        yield "argument-removed", args[:i] + args[i + 1:], kw
+        if "p0" not in dict(kw):
+            yield "positional-to-keyword", args[:-1], kw + (("p0", args[-1]),)
+    yield "argument-added", args + (("lit", 779),), kw
+    if kw:
+        i = rng.randrange(len(kw))
+        yield "keyword-value", args, kw[:i] + ((kw[i][0], ("lit", 778)),) + kw[i + 1:]
+        yield "keyword-name", args, kw[:i] + ((kw[i][0] + "_r", kw[i][1]),) + kw[i + 1:]
+        yield "keyword-removed", args, kw[:i] + kw[i + 1:]
+    kp = [(i, j) for i in range(len(kw)) for j in range(i + 1, len(kw)) if ident(kw[i][1]) != ident(kw[j][1])]
+    if kp:
+        i, j = rng.choice(kp)
+        k2 = list(kw)
+        k2[i], k2[j] = (kw[i][0], kw[j][1]), (kw[j][0], kw[i][1])
+        yield "keyword-values-swapped", args, tuple(k2)
+
+
 def variants(rng, n):
-    """single-component changes: (what, node2); all must get a different hash"""
+    """single-component changes: (what, node2); each denotes a different call, so all must get a different hash"""
     if n[0] == "value":
         yield "value", ("value", n[1] + 100)
         return
     if n[0] == "simple":
         _, f, args, kw = n
         yield "name", ("simple", f + "_x", args, kw)
-        if args:
-            i = rng.randrange(len(args))
-            yield "argument", ("simple", f, args[:i] + (("lit", 777),) + args[i + 1:], kw)
-        if kw:
-            i = rng.randrange(len(kw))
-            yield "keyword-value", ("simple", f, args, kw[:i] + ((kw[i][0], ("lit", 778)),) + kw[i + 1:])
+        for what, a2, k2 in arg_variants(rng, args, kw):
+            yield what, ("simple", f, a2, k2)
         yield "kind", ("task", f, args, kw, (), (), None)
         return
     kind, name, args, kw, opts, ex, length = n
     yield "name", (kind, name + "_x", args, kw, opts, ex, length)
     yield "kind", ("sched" if kind == "task" else "task", name, args, kw, opts, ex, length)
-    yield "argument-added", (kind, name, args + (("lit", 779),), kw, opts, ex, length)
-    if args:
-        i = rng.randrange(len(args))
-        yield "argument", (kind, name, args[:i] + (("value", 777),) + args[i + 1:], kw, opts, ex, length)
-    if kw:
-        i = rng.randrange(len(kw))
-        yield "keyword-value", (kind, name, args, kw[:i] + ((kw[i][0], ("lit", 778)),) + kw[i + 1:], opts, ex, length)
+    for what, a2, k2 in arg_variants(rng, args, kw):
+        yield what, (kind, name, a2, k2, opts, ex, length)
     yield "options-added", (kind, name, args, kw, opts + (("zopt", 3),), ex, length)
     if opts:
         yield "options-value", (kind, name, args, kw, ((opts[0][0], opts[0][1] + 50),) + opts[1:], ex, length)
@@ -196,6 +226,12 @@ def run(ctx):
         ("simple", "add", (("task", "f", (), (), (), (), None), ("lit", 1)), ()),
         ("value", 5),
     ]
+    # operand order: every binary lazy operator, a task call and a scheduler task with two distinguishable operands
+    for f in ("add", "mul", "eq", "ne", "and", "or", "sub", "lt", "div", "radd", "getitem"):
+        corpus.append(("simple", f, (("lit", 1), ("lit", 2)), ()))
+        corpus.append(("simple", f, (("task", "f", (), (), (), (), None), ("value", 2)), ()))
+    corpus.append(("task", "f", (("lit", 1), ("lit", 2)), (("a", ("lit", 3)), ("b", ("lit", 4))), (), (), None))
+    corpus.append(("sched", "redun.cond", (("lit", 1), ("lit", 2), ("lit", 3)), (), (), (), None))
     nodes = corpus + [gen_node(rng, rng.choice([1, 2, 2, 3]), top=True) for _ in range(ctx.n(500, 25000))]
     reqs, plan = [], []
     with log:
@@ -255,7 +291,7 @@ def run(ctx):
         for what, n2, h2 in pairs:
             ctx.count("variant", n[0] + ":" + what)
             if h2 == h:
-                ctx.violation("C18-same-hash-different-%s-%s" % (what, n[0]),
+                ctx.violation("C18-same-hash-different-call-%s-%s" % (what, n[0]),
                               "two %s expressions that differ in %s have the same hash" % (n[0], what),
                               case={"a": repr(real.build(n)), "b": repr(real.build(n2)), "node_a": n, "node_b": n2},
                               expected="different hashes", actual="equal")
@@ -279,6 +315,54 @@ def run(ctx):
     for (req, impl, info), mo in zip(legacy, out[len(reqs):]):
         if mo != impl:
             ctx.mismatch("__setstate__ of a legacy/malformed state differs from the model", case=info, model=mo, impl=impl)
+    merged_under_one_parent(ctx)
+
+
+# ------------------------------------------------------------------ scheduler level: equal hashes are merged under one parent job
+def merged_under_one_parent(ctx):
+    """Both operand orders of non-commutative computations evaluated under ONE parent job (where expressions with equal
+    hashes share one evaluation), compared with plain Python evaluation of the same operations."""
+    import logging
+    import operator
+    from redun import Scheduler, task
+    logging.getLogger("redun").setLevel(logging.ERROR)
+
+    @task(name="c18_ident", namespace="verif_c18", version="1")
+    def c18_ident(x):
+        return x
+
+    @task(name="c18_pair", namespace="verif_c18", version="1")
+    def c18_pair(x, y, k=None):
+        return [x, y, k]
+
+    scenarios = [
+        ("add-str", "ab", "cd", operator.add), ("add-list", [1], [2, 3], operator.add), ("add-tuple", (1,), (2,), operator.add),
+        ("and-str", "ab", "cd", operator.and_), ("or-str", "ab", "cd", operator.or_), ("or-falsy", "", "cd", operator.or_),
+        ("sub-int", 7, 2, operator.sub), ("mul-str-int", "ab", 3, operator.mul), ("eq", 1, 2, operator.eq), ("lt", 1, 2, operator.lt),
+    ]
+    py = {operator.and_: lambda a, b: a and b, operator.or_: lambda a, b: a or b}
+    for what, va, vb, op in scenarios:
+        @task(name="c18_main", namespace="verif_c18", version=what)
+        def c18_main():
+            a, b = c18_ident(va), c18_ident(vb)
+            return [op(a, b), op(b, a), c18_pair(a, b), c18_pair(b, a), c18_pair(a, a, k=b), c18_pair(a, a, k=a)]
+
+        f = py.get(op, op)
+        try:
+            expect = [f(va, vb), f(vb, va), [va, vb, None], [vb, va, None], [va, va, vb], [va, va, va]]
+        except TypeError:
+            continue
+        try:
+            got = Scheduler().run(c18_main())
+        except Exception as e:      # noqa: BLE001  (e.g. int * str orders that Python itself rejects are filtered above)
+            got = "!" + type(e).__name__
+        ctx.case(key=("one-parent", what), part="merged-under-one-parent", scenario=what)
+        if got != expect:
+            ctx.violation("C18-same-hash-different-call-merged-" + what.split("-")[0],
+                          "two different calls evaluated under one parent job were merged: the result differs from plain Python evaluation",
+                          case={"scenario": what, "a": repr(va), "b": repr(vb),
+                                "program": "[a op b, b op a, pair(a, b), pair(b, a), pair(a, a, k=b), pair(a, a, k=a)] with a=ident(%r), b=ident(%r)" % (va, vb)},
+                          expected=repr(expect), actual=repr(got), kind="input")
 
 
 def legacy_states(ctx, rng, real):
@@ -337,6 +421,9 @@ def _tuplify(x):
 def replay(ctx, case):
     """re-run exactly the recorded pair of expressions on the implementation (and the model)"""
     c = case.get("case")
+    if isinstance(c, dict) and "scenario" in c:
+        print("replay: scheduler-level scenario", c["scenario"], "-", c.get("program"))
+        return merged_under_one_parent(ctx)
     if not isinstance(c, dict) or "node_a" not in c:
         print("replay: no single pair recorded (correspondence/proof break or a round-trip case); running the whole check")
         return run(ctx)
